@@ -17,6 +17,7 @@ def run(ctx):
         "match raises, ends with that InvalidSequence; K19: no match raises InvalidSequence; (d) every exception the "
         "assembly kernels (K0, K15, K14) end with is a documented MoClo error; (e) builtin-method-existence lint over "
         "moclo.core, regex.py, record.py."
+        " The constructors of the repo's exceptions are evaluated at every raise site with the abstract argument actually passed; attribute existence on Seq/SeqRecord values comes from the library classes."
     )
     r.not_decided = ["exceptions raised inside Biopython or re on exotic letters", "Bio.Restriction.catalyse on arbitrary letters"]
     lm = ctx.lettermap
